@@ -804,10 +804,20 @@ func (q *checker) bcheckWhile(n *a.While) error {
 		}
 	}
 
-	// Check the while condition.
+	// Check the while condition, assuming only the pre and inv conditions
+	// (the loop head is also reached from every continue).
+	entryFacts := snapshot(q.facts)
+	q.facts = q.facts[:0]
+	for _, o := range n.Asserts() {
+		if o.AsAssert().Keyword() == t.IDPost {
+			continue
+		}
+		q.facts.appendFact(o.AsAssert().Condition())
+	}
 	if _, err := q.bcheckExpr(n.Condition(), 0); err != nil {
 		return err
 	}
+	q.facts = append(q.facts[:0], entryFacts...)
 
 	// Check the post conditions on exit, assuming only the pre and inv
 	// (invariant) conditions and the inverted while condition.
